@@ -238,7 +238,49 @@ def judge(kind, prm, seed):
     return None, None
 
 
+def judge_int(seed):
+    """cells given with INTEGER numbers: whole-number lengths in the named constructors, lattice vectors as an integer array"""
+    import random
+    from chmpy.crystal.unit_cell import UnitCell
+    rng = random.Random(seed)
+    a, b, c = (rng.randint(2, 30) for _ in range(3))
+    for tag, thunk, prm in (("orthorhombic(ints)", lambda: UnitCell.orthorhombic(a, b, c), (a, b, c, math.pi / 2, math.pi / 2, math.pi / 2)),
+                            ("cubic(int)", lambda: UnitCell.cubic(a), (a, a, a, math.pi / 2, math.pi / 2, math.pi / 2)),
+                            ("tetragonal(ints)", lambda: UnitCell.tetragonal(a, c), (a, a, c, math.pi / 2, math.pi / 2, math.pi / 2)),
+                            ("hexagonal(ints)", lambda: UnitCell.hexagonal(a, c), (a, a, c, math.pi / 2, math.pi / 2, 2 * math.pi / 3)),
+                            ("from_lengths_and_angles(ints, degrees)", lambda: UnitCell.from_lengths_and_angles([a, b, c], [90, 100, 90], unit="degrees"),
+                             (a, b, c, math.pi / 2, math.radians(100), math.pi / 2))):
+        try:
+            uc = thunk()
+        except Exception as e:  # noqa
+            return tag, f"{tag} raised {type(e).__name__}: {e}"
+        r = check_cell(uc, tuple(float(x) for x in prm), tag, rng)
+        if r:
+            return tag, r
+    while True:
+        M = np.array([[rng.randint(3, 12), 0, 0], [rng.randint(-3, 3), rng.randint(3, 12), 0], [rng.randint(-3, 3), rng.randint(-3, 3), rng.randint(3, 12)]], dtype=int)
+        if abs(np.linalg.det(M)) > 1:
+            break
+    Mf = M.astype(float)
+    ln = np.linalg.norm(Mf, axis=1)
+    ang = lambda u, v: math.acos(float(np.dot(u, v) / (np.linalg.norm(u) * np.linalg.norm(v))))
+    prm = (ln[0], ln[1], ln[2], ang(Mf[1], Mf[2]), ang(Mf[0], Mf[2]), ang(Mf[0], Mf[1]))
+    tag = f"UnitCell(integer array {M.tolist()})"
+    try:
+        uc = UnitCell(M)
+    except Exception as e:  # noqa
+        return tag, f"{tag} raised {type(e).__name__}: {e}"
+    r = check_cell(uc, prm, tag, rng)
+    return (tag, r) if r else (None, None)
+
+
 def search(ctx, budget):
+    for _ in range(10 if budget == "quick" else 200):
+        seed = ctx.rng.randrange(1 << 30)
+        ctx.case({"kind": "integer-input", "seed": seed}, nontrivial=True)
+        tag, r = judge_int(seed)
+        if r:
+            ctx.fail(f"C12:{tag.split('(')[0]}:integer-input", r, {"kind": "integer-input", "params": [], "seed": seed})
     n = 300 if budget == "quick" else 6000
     kinds = ["triclinic", "monoclinic", "rhombohedral", "hexagonal", "orthorhombic", "tetragonal", "cubic"]
     for i in range(n):
@@ -252,4 +294,6 @@ def search(ctx, budget):
 
 def replay(ctx, obj):
     i = obj["input"]
+    if i["kind"] == "integer-input":
+        return judge_int(i["seed"])[1]
     return judge(i["kind"], tuple(i["params"]), i["seed"])[1]
